@@ -48,7 +48,12 @@ func main() {
 	res := flag.String("results", "", "per-case result lines")
 	shard := flag.Int("shard", 0, "shard index")
 	shards := flag.Int("shards", 1, "number of shards")
+	mode := flag.String("mode", "http", "http | tcp")
 	flag.Parse()
+	if *mode == "tcp" {
+		runTCP(*cases, *out, *res, *shard, *shards)
+		return
+	}
 	tmp, _ := os.MkdirTemp("", "c10-")
 	defer os.RemoveAll(tmp)
 
